@@ -14,6 +14,13 @@ package i18n
 //     placeholder does (same placeholder set).
 //   - "neg": NegotiateLanguage on a nasty corpus, structured headers and raw junk vs the Lean model
 //     (op `neg`), with the oracle "answer is \"\" or a language that has a file in languages/".
+//     A "hostile" stream derives, from the shipped codes themselves, tags that only a LOOSER comparison than
+//     the documented one (lower-case, then equal) would accept: members of the Unicode case-folding orbit and
+//     every code point whose upper/lower/title case is a letter of the code (U+017F, U+212A, U+0130, U+0131),
+//     full-width / mathematical / circled letters, homoglyphs, precomposed and combining marks, zero-width
+//     characters, invalid UTF-8, NUL, prefixes/suffixes, very long tags, odd q= values. Every header of
+//     every stream (also the ones the Lean model declares out of its domain, and invalid UTF-8) is judged by
+//     a model-free reference implementation of the documented matching (c38RefNegotiate).
 //   - "sp"/"lo": unicode.IsSpace / unicode.ToLower vs the model's tables, and the assumption that no
 //     code point other than A-Z, U+0130, U+212A lower-cases into ASCII.
 
@@ -25,6 +32,7 @@ import (
 	"path/filepath"
 	"regexp"
 	"sort"
+	"strconv"
 	"strings"
 	"testing"
 	"unicode"
@@ -46,6 +54,13 @@ type c38Key struct {
 type c38Table struct {
 	Langs   []string                     `json:"langs"`
 	Emitted map[string]map[string]string `json:"emitted"`
+}
+
+// c38Hdr is one header handed to the entry-point harnesses (internal/router, internal/server/admin)
+type c38Hdr struct {
+	H      string `json:"h"`    // verifh.Hex of the Accept-Language / ?lang= value
+	Want   string `json:"want"` // c38RefNegotiate's answer over the shipped languages
+	Stream string `json:"stream"`
 }
 
 var c38PH = regexp.MustCompile(`(?s)\{\{(.*?)\}\}`)
@@ -182,6 +197,226 @@ func c38GenJunk(r *rand.Rand) string {
 	}
 
 	return b.String()
+}
+
+// c38RefNegotiate is the reference implementation of the documented matching (negotiate.go doc comment and
+// RFC 7231 5.3.5 as far as the code claims it): comma separated items, ";q=" parameters (the last one that
+// parses wins, default 1), "*" and empty tags ignored; an item matches a shipped language when its
+// lower-cased tag IS a shipped code (exact), else when its lower-cased primary subtag (before the first '-')
+// IS a shipped code - byte equality, nothing looser; the answer is the matching item with the highest
+// quality, the leftmost among equals; "" when no item matches. It is written without a sort: "highest
+// quality, leftmost among equals" is what a stable descending sort followed by "first supported" selects
+// whenever '>' is a strict weak order; nan reports that some quality is NaN (then the order the code's sort
+// produces is unspecified, and only `matching` is checked).
+func c38RefNegotiate(h string, shipped map[string]bool) (want string, matching map[string]bool, nan bool) {
+	matching = map[string]bool{}
+	have := false
+	best := 0.0
+
+	for _, item := range strings.Split(strings.TrimSpace(h), ",") {
+		item = strings.TrimSpace(item)
+		tag, params, _ := strings.Cut(item, ";")
+		tag = strings.TrimSpace(tag)
+
+		if tag == "" || tag == "*" {
+			continue
+		}
+
+		q := 1.0
+
+		for _, p := range strings.Split(params, ";") {
+			p = strings.TrimSpace(p)
+			if len(p) >= 2 && p[:2] == "q=" {
+				if v, err := strconv.ParseFloat(p[2:], 64); err == nil {
+					q = v
+				}
+			}
+		}
+
+		primary, _, _ := strings.Cut(tag, "-")
+		primary = strings.ToLower(primary)
+
+		if primary == "" {
+			continue
+		}
+
+		if q != q {
+			nan = true
+		}
+
+		lang := ""
+
+		if full := strings.ToLower(tag); shipped[full] {
+			lang = full
+		} else if shipped[primary] {
+			lang = primary
+		}
+
+		if lang == "" {
+			continue
+		}
+
+		matching[lang] = true
+
+		if !have || q > best {
+			have, best, want = true, q, lang
+		}
+	}
+
+	return want, matching, nan
+}
+
+// c38Hostile derives from the shipped codes the tags that are NOT the code under "lower-case, then equal"
+// but would be under some looser comparison. Nothing here is a list of known-bad strings: the Unicode case
+// relations come from a scan of the unicode tables, the rest are per-letter constructions.
+func c38Hostile(langs []string) []string {
+	// every non-ASCII code point related by case (upper, lower, title, simple-fold orbit) to an ASCII letter
+	caseKin := map[rune][]rune{}
+
+	for cp := rune(0x80); cp <= unicode.MaxRune; cp++ {
+		kin := []rune{unicode.ToUpper(cp), unicode.ToLower(cp), unicode.ToTitle(cp)}
+
+		for f := unicode.SimpleFold(cp); f != cp; f = unicode.SimpleFold(f) {
+			kin = append(kin, f)
+		}
+
+		var last rune
+
+		for _, m := range kin {
+			if m < 0x80 && unicode.IsLetter(m) && unicode.ToLower(m) != last {
+				last = unicode.ToLower(m)
+				caseKin[last] = append(caseKin[last], cp)
+			}
+		}
+	}
+
+	homoglyph := map[rune][]rune{'a': {0x430, 0x3b1, 0x251}, 'e': {0x435, 0x3b5, 0x212f}, 's': {0x455, 0x1e9b, 0xa731}, 'j': {0x458, 0x3f3}, 'n': {0x578, 0x3b7, 0x207f},
+		'r': {0x433, 0x280}, 'f': {0x192, 0x584}, 'i': {0x456, 0x3b9}, 'o': {0x43e, 0x3bf}, 'p': {0x440, 0x3c1}, 'c': {0x441, 0x3f2}, 'k': {0x3ba, 0x43a}, 't': {0x3c4}, 'd': {0x501}, 'h': {0x4bb}}
+	precomposed := map[rune][]rune{'a': {0xe0, 0xe5, 0x101, 0xaa}, 'e': {0xe9, 0xea, 0x113}, 's': {0x161, 0xdf, 0x15f}, 'n': {0xf1, 0x144}, 'r': {0x159}, 'f': {0x1e1f}, 'j': {0x135, 0x1f0},
+		'i': {0xed, 0xef}, 'o': {0xf6, 0xba}, 'u': {0xfc}, 'c': {0xe7}, 'd': {0x10f}, 't': {0x165}, 'z': {0x17e}, 'k': {0x137}, 'l': {0x142}, 'h': {0x127}}
+	inserts := []string{"\u0301", "\u0307", "\u0345", "\u200b", "\u200c", "\u200d", "\u00ad", "\ufeff", "\u2060", "\u034f", "\x00", "\xff", "\xc3", "\x80", "\xc5", "\xe2\x84", "\xf0\x9d", "\xed\xa0\x80", "\x7f", "\\", "%"}
+
+	set := map[string]bool{}
+	add := func(s string) {
+		for _, l := range langs {
+			if s == l {
+				return
+			}
+		}
+
+		set[s] = true
+	}
+
+	for _, lang := range langs {
+		rs := []rune(lang)
+
+		for i, c := range rs {
+			sub := func(x string) { add(string(rs[:i]) + x + string(rs[i+1:])) }
+
+			for _, k := range caseKin[c] {
+				sub(string(k))
+			}
+
+			for _, k := range homoglyph[c] {
+				sub(string(k))
+			}
+
+			for _, k := range precomposed[c] {
+				sub(string(k))
+			}
+
+			if c >= 'a' && c <= 'z' {
+				for _, base := range []rune{0xff41, 0xff21, 0x1d41a, 0x1d400, 0x1d68a, 0x24d0, 0x24b6, 0x1f130, 0x1f1e6} {
+					sub(string(base + (c - 'a')))
+				}
+
+				// overlong / truncated encodings of the letter itself, and Latin-1 style bytes
+				sub(string([]byte{0xc1, 0x80 | byte(c)&0x3f}))
+				sub(string([]byte{0xe0, 0x81, 0x80 | byte(c)&0x3f}))
+				sub(string([]byte{byte(c) | 0x80}))
+			}
+
+			for _, ins := range inserts {
+				add(string(rs[:i+1]) + ins + string(rs[i+1:]))
+				add(string(rs[:i]) + ins + string(rs[i:]))
+			}
+		}
+
+		add(lang + lang)
+		add(lang + "x")
+		add("x" + lang)
+		add(lang[:len(lang)-1])
+		add(lang[1:])
+		add(lang + "_" + lang)
+		add(lang + "." + "utf-8")
+		add(lang + "@latin")
+		add("\"" + lang + "\"")
+		add("q=" + lang)
+	}
+
+	res := make([]string, 0, len(set))
+	for s := range set {
+		res = append(res, s)
+	}
+
+	sort.Strings(res)
+
+	return res
+}
+
+// c38CaseASCII changes the case of ASCII letters only (strings.ToUpper would turn U+017F into a real "S")
+func c38CaseASCII(r *rand.Rand, s string) string {
+	b := []byte(s)
+	mode := r.Intn(4)
+
+	for i, c := range b {
+		if c >= 'a' && c <= 'z' && (mode == 1 || (mode == 2 && i == 0) || (mode == 3 && r.Intn(2) == 0)) {
+			b[i] = c - 32
+		}
+	}
+
+	return string(b)
+}
+
+var c38OddQ = []string{"", "", ";q=1", ";q=0.9", ";q=0.5", ";q=1.0", ";q=0.999", ";q=5e-1", ";q=-0", ";q=+1", ";q=1.000000", ";q=00.9", ";q=.9", ";q=9e-1", ";q=0.9;q=junk", ";q=\uff11", ";\uff51=0.1",
+	";q\u200b=0.1", ";q=0.5e", ";\u017f=1", ";Q=0.1", ";q=1;\u017f", ";q=0.9\u200b", ";q=\u0661", ";q=1\x00", ";q=\xff", ";q=2", ";q=99", ";q=1e2"}
+
+// quality values outside the Lean driver's decimal domain: the direct oracle is the only judge
+var c38OddQOom = []string{";q=1e-320", ";q=1e309", ";q=Infinity", ";q=+Inf", ";q=nan", ";q=NaN;q=0.9", ";q=0x.8p0", ";q=0x1p-1074", ";q=0.1234567890123456789", ";q=1_000", ";q=4.9e-324", ";q=1e-400"}
+
+// c38GenHostile: one to four items, mostly hostile tags at the top qualities and (half of the time) a genuinely
+// shipped language lower down, so that wrongly accepting the hostile tag changes the answer.
+func c38GenHostile(r *rand.Rand, hostile, langs []string) string {
+	regions := []string{"", "", "", "-MX", "-US", "-419", "-Latn-RS", "-x-\u017f", "-\u212a", "-", "--", "-" + langs[r.Intn(len(langs))], "_" + langs[r.Intn(len(langs))]}
+	q := func() string {
+		if r.Intn(25) == 0 {
+			return c38OddQOom[r.Intn(len(c38OddQOom))]
+		}
+
+		return c38OddQ[r.Intn(len(c38OddQ))]
+	}
+
+	var items []string
+
+	for i, n := 0, 1+r.Intn(3); i < n; i++ {
+		tag := hostile[r.Intn(len(hostile))]
+		if r.Intn(8) == 0 { // two hostile replacements in one tag
+			other := []rune(hostile[r.Intn(len(hostile))])
+			tag = tag + string(other[len(other)-1:])
+		}
+
+		items = append(items, c38CaseASCII(r, tag)+regions[r.Intn(len(regions))]+q())
+	}
+
+	if r.Intn(2) == 0 {
+		real := c38CaseASCII(r, langs[r.Intn(len(langs))]) + regions[r.Intn(4)] + []string{";q=0.5", ";q=0.1", ";q=0.001", "", ";q=0"}[r.Intn(5)]
+		at := r.Intn(len(items) + 1)
+		items = append(items[:at], append([]string{real}, items[at:]...)...)
+	}
+
+	sep := []string{",", ", ", " , ", ",\t", ",\u00a0", ",,"}[r.Intn(6)]
+
+	return strings.Join(items, sep)
 }
 
 func TestVerifC38(t *testing.T) {
@@ -399,6 +634,12 @@ func TestVerifC38(t *testing.T) {
 	seenHdr := map[string]bool{}
 	nontrivial := map[string]bool{}
 
+	hdrs := verifh.Out("c38_headers.jsonl")
+	defer hdrs.Close()
+
+	exported := map[string]bool{}
+	exportedN := map[string]int{}
+
 	negotiate := func(h, stream string) {
 		got := NegotiateLanguage(h)
 
@@ -410,6 +651,37 @@ func TestVerifC38(t *testing.T) {
 
 		if got != "" && !strings.Contains(strings.ToLower(h), got) {
 			fail("negotiate-invented", "NegotiateLanguage answered a language that does not occur in the header", "header(hex)="+verifh.Hex(h), got, "")
+		}
+
+		// reference implementation of the documented matching; judges EVERY header, also the ones the Lean
+		// model skips (q= outside its decimal domain, invalid UTF-8, line breaks)
+		want, matching, nan := c38RefNegotiate(h, shipped)
+		stats.Inc("neg_oracle_judged")
+
+		switch {
+		case nan:
+			stats.Inc("neg_oracle_nan_weak")
+
+			if (got == "") != (len(matching) == 0) || (got != "" && !matching[got]) {
+				fail("negotiate-differs-from-reference", "NegotiateLanguage (a quality is NaN: order unspecified) answered a language no item of the header matches exactly or by primary subtag",
+					"header(hex)="+verifh.Hex(h)+" header="+fmt.Sprintf("%q", h), got, "one of the matching shipped languages, or \"\" when there is none")
+			}
+		case got != want:
+			fail("negotiate-differs-from-reference", "NegotiateLanguage differs from the documented matching (lower-cased tag or primary subtag EQUAL to a shipped code, highest q, leftmost among equals)",
+				"header(hex)="+verifh.Hex(h)+" header="+fmt.Sprintf("%q", h), fmt.Sprintf("%q", got), fmt.Sprintf("%q", want))
+		}
+
+		if want != "" {
+			stats.Inc("neg_ref_selects_" + stream)
+		}
+
+		// hand a sample to the entry-point harnesses (router Accept-Language, admin dashboard ?lang=), which
+		// replay it through the real request-level functions against the same reference answer
+		if !nan && len(h) <= 2048 && !exported[h] && (stream == "corpus" || stream == "hostile_corpus" || exportedN[stream] < 400) {
+			exported[h] = true
+			exportedN[stream]++
+
+			hdrs.Write(c38Hdr{H: verifh.Hex(h), Want: want, Stream: stream})
 		}
 
 		if utf8.ValidString(h) && !strings.ContainsAny(h, "\n") && !seenHdr[h] {
@@ -439,6 +711,31 @@ func TestVerifC38(t *testing.T) {
 
 	for _, h := range corpus {
 		negotiate(h, "corpus")
+	}
+
+	// hostile tags derived from the shipped codes: each alone, and above a genuinely shipped language
+	hostile := c38Hostile(supported)
+	stats.Add("neg_hostile_tags", len(hostile))
+
+	for i, tag := range hostile {
+		other := supported[i%len(supported)]
+
+		negotiate(tag, "hostile_corpus")
+		negotiate(c38CaseASCII(rand.New(rand.NewSource(int64(i))), tag)+"-MX;q=0.9, "+other+";q=0.5", "hostile_corpus")
+	}
+
+	// very long tags / lists (a matcher that truncates, or a comparison that gives up, shows here)
+	for _, l := range supported {
+		for _, h := range []string{strings.Repeat(l[:1], 4096) + l[1:], l + strings.Repeat("x", 8192), l + "-" + strings.Repeat("x", 8192), strings.Repeat(l+"-", 2000),
+			strings.Repeat("\u0301", 3000) + l, l + strings.Repeat("\u200d", 3000) + ";q=0.3," + l + "x", strings.Repeat(hostile[len(hostile)/2]+";q=0.9,", 300) + l + ";q=0.1",
+			strings.Repeat(" ", 5000) + l + strings.Repeat("\u3000", 5000), l + ";q=0." + strings.Repeat("0", 400) + "1," + l + "x;q=1", l + ";" + strings.Repeat("q=;", 1500) + "q=0"} {
+			negotiate(h, "long")
+		}
+	}
+
+	r4 := verifh.Rand(3803)
+	for i, n := 0, verifh.N(5000, 200000); i < n; i++ {
+		negotiate(c38GenHostile(r4, hostile, supported), "hostile")
 	}
 
 	r2 := verifh.Rand(3801)
